@@ -185,6 +185,9 @@ func tokenBridgeRegisterChain(
 	if req.ChainId > math.MaxUint16 {
 		return nil, errors.New("invalid chain_id")
 	}
+	if len(req.Module) > 32 {
+		return nil, errors.New("invalid module (expected at most 32 bytes)")
+	}
 
 	b, err := hex.DecodeString(req.EmitterAddress)
 	if err != nil {
@@ -220,6 +223,9 @@ func tokenBridgeUpgradeContract(
 	sequence uint64,
 	targetChainId vaa.ChainID,
 ) (*vaa.VAA, error) {
+	if len(req.Module) > 32 {
+		return nil, errors.New("invalid module (expected at most 32 bytes)")
+	}
 	payload, err := hex.DecodeString(req.Payload)
 	if err != nil {
 		return nil, errors.New("invalid payload encoding (expected hex)")
@@ -339,7 +345,7 @@ func (s *nodePrivilegedService) InjectGovernanceVAA(ctx context.Context, req *no
 		case *nodev1.GovernanceMessage_UpdateRefundAddress:
 			v, err = tokenBridgeUpdateRefundAddress(s.governanceChainId, s.governanceEmitterAddress, payload.UpdateRefundAddress, timestamp, req.CurrentSetIndex, message.Nonce, message.Sequence, targetChainId)
 		default:
-			panic(fmt.Sprintf("unsupported VAA type: %T", payload))
+			return nil, status.Error(codes.InvalidArgument, fmt.Sprintf("unsupported VAA type: %T", payload))
 		}
 		if err != nil {
 			return nil, status.Error(codes.InvalidArgument, err.Error())
